@@ -46,24 +46,25 @@ Proj(st) ==
    acks |-> IF st.p.on THEN st.p.acks ELSE 0,
    errs |-> IF st.p.on THEN st.p.errs ELSE 0,
    live |-> {i.tid + base : i \in {j \in st.infl : j.age < MaxAge}},
+   present |-> {i.tid + base : i \in st.infl}, cap |-> st.cap,
    next_tid |-> st.tid + base,
    cache_on |-> st.cache.on,
    cache_kind |-> IF st.cache.on THEN st.cache.kind ELSE "none",
    cache_nodes |-> IF st.cache.on THEN Cardinality(st.cache.nodes) ELSE 0,
    rt |-> st.rt,
-   waiting_get |-> st.gs, waiting_put |-> st.ps,
+   waiting_get |-> Cardinality(st.gs), waiting_put |-> Cardinality(st.ps),
    done |-> [c \in st.called |-> st.done[c]]]
 
 Obs(o) ==
   [q_on |-> o.q_on, q_kind |-> o.q_kind, cand |-> SeqSet(o.cand), vis |-> SeqSet(o.vis), resp |-> SeqSet(o.resp),
    q_tids |-> SeqSet(o.q_tids), p_on |-> o.p_on, p_started |-> o.p_started, p_tids |-> SeqSet(o.p_tids),
-   acks |-> o.acks, errs |-> o.errs, live |-> SeqSet(o.live), next_tid |-> o.next_tid,
+   acks |-> o.acks, errs |-> o.errs, live |-> SeqSet(o.live), present |-> SeqSet(o.present), cap |-> o.cap, next_tid |-> o.next_tid,
    cache_on |-> o.cache_on, cache_kind |-> o.cache_kind, cache_nodes |-> o.cache_nodes,
    rt |-> SeqSet(o.rt),
-   waiting_get |-> SeqSet(o.waiting_get), waiting_put |-> SeqSet(o.waiting_put),
+   waiting_get |-> o.waiting_get, waiting_put |-> o.waiting_put,
    done |-> [c \in SeqSet(o.called) |-> o.done[c]]]
 
-Fields == {"q_on", "q_kind", "cand", "vis", "resp", "q_tids", "p_on", "p_started", "p_tids", "acks", "errs", "live",
+Fields == {"q_on", "q_kind", "cand", "vis", "resp", "q_tids", "p_on", "p_started", "p_tids", "acks", "errs", "live", "present", "cap",
            "next_tid", "cache_on", "cache_kind", "cache_nodes", "rt", "waiting_get", "waiting_put", "done"}
 Diff(a, b) == {f \in Fields : a[f] # b[f]}
 
@@ -71,23 +72,36 @@ Diff(a, b) == {f \in Fields : a[f] # b[f]}
 \*   C06_ExactlyOne : no call has received more than one outcome;  C20 : a node with nothing in flight keeps no query / put
 L1(e) ==
   (IF \E c \in DOMAIN e.outcomes : e.outcomes[c] > 1 THEN {"C06_ExactlyOne"} ELSE {})
-  \cup (IF e.quiet /\ (e.proj.q_on \/ e.proj.p_on \/ Len(e.proj.waiting_get) > 0 \/ Len(e.proj.waiting_put) > 0)
+  \cup (IF e.panicked THEN {"C06_NodeAlive"} ELSE {})
+  \cup (IF \E c \in DOMAIN e.proj.done : e.proj.done[c] = "dropped" THEN {"C06_CallAnswered"} ELSE {})
+  \* the last line of a behaviour is taken 6 s (12 request timeouts) after the last call: every call has completed
+  \cup (IF e.last /\ \E c \in DOMAIN e.proj.done : e.proj.done[c] = "pending" THEN {"C06_Terminates"} ELSE {})
+  \cup (IF e.quiet /\ (e.proj.q_on \/ e.proj.p_on \/ e.proj.waiting_get > 0 \/ e.proj.waiting_put > 0)
         THEN {"C20_NoLeak"} ELSE {})
 
 TInit == /\ s = [tid |-> 0, infl |-> {}, q |-> NoQ, p |-> NoP, cache |-> NoC, gs |-> {}, ps |-> {}, mbox |-> <<>>,
-                 called |-> {}, done |-> [c \in Calls |-> "pending"], outcomes |-> [c \in Calls |-> 0], net |-> {}, rt |-> Boot]
+                 called |-> {}, done |-> [c \in Calls |-> "pending"], outcomes |-> [c \in Calls |-> 0], net |-> {}, rt |-> Boot, cap |-> 0]
          /\ l = 1 /\ mode = "skip" /\ base = 0 /\ beh = -1
 
 Reset == /\ Rec[l].e = "reset"
-         /\ s' = [tid |-> 0, infl |-> {}, q |-> NoQ, p |-> NoP, cache |-> NoC, gs |-> {}, ps |-> {}, mbox |-> <<>>,
-                  called |-> {}, done |-> [c \in Calls |-> "pending"], outcomes |-> [c \in Calls |-> 0], net |-> {}, rt |-> Boot]
+         \* requests left over from the bootstrap are in the table with negative model ids
+         /\ s' = [tid |-> 0, infl |-> {[tid |-> Rec[l].infl0[i][1] - Rec[l].tid_base, to |-> Rec[l].infl0[i][2], age |-> 0] : i \in 1..Len(Rec[l].infl0)},
+                  q |-> NoQ, p |-> NoP, cache |-> NoC, gs |-> {}, ps |-> {}, mbox |-> <<>>,
+                  called |-> {}, done |-> [c \in Calls |-> "pending"], outcomes |-> [c \in Calls |-> 0], net |-> {}, rt |-> Boot,
+                  cap |-> Rec[l].cap0]
          /\ base' = Rec[l].tid_base /\ beh' = Rec[l].b /\ mode' = "ok" /\ l' = l + 1
 
 Skip == /\ Rec[l].e \in {"api", "tick"} /\ mode = "skip"
         /\ l' = l + 1 /\ UNCHANGED <<s, mode, base, beh>>
 
+\* the fields through which a message can influence query results, routing tables and put results
+CoreFields == {"cand", "vis", "resp", "rt", "acks", "errs", "q_on", "p_on", "cache_on", "cache_nodes", "done"}
 Judge(e, m) ==
-  LET f == L1(e) d == Diff(Obs(e.proj), Proj(m)) IN
+  LET d == Diff(Obs(e.proj), Proj(m))
+      \* C09: the datagram read in this tick answers a request that had already expired (harness clock), and the node's state
+      \* differs from the model's - in which expired replies only leave the in-flight table - in a core field
+      lateEffect == e.e = "tick" /\ e.input.dir = "resp" /\ e.input.tid \in SeqSet(e.expired) /\ d \cap CoreFields # {}
+      f == L1(e) \cup (IF lateEffect THEN {"C09_ExpiredIgnored"} ELSE {}) IN
   IF f # {} THEN PrintT(<<"VIOL", ToJson([line |-> l, b |-> beh, failed |-> f, step |-> e.e])>>) /\ mode' = "skip"
   ELSE IF d # {}
        THEN PrintT(<<"DRIFT", ToJson([line |-> l, b |-> beh, step |-> e.e, fields |-> d,
@@ -110,7 +124,12 @@ TickStep == /\ Rec[l].e = "tick" /\ mode = "ok"
                IN Judge(e, m) /\ s' = m
             /\ l' = l + 1 /\ UNCHANGED <<base, beh>>
 
-TNext == l <= Len(Rec) /\ (Reset \/ Skip \/ Api \/ TickStep)
+\* the node died (a panic in the code under test is data)
+Dead == /\ Rec[l].e = "dead"
+        /\ IF mode = "ok" THEN PrintT(<<"VIOL", ToJson([line |-> l, b |-> beh, failed |-> {"C06_NodeAlive"}, step |-> "dead"])>>) ELSE TRUE
+        /\ mode' = "skip" /\ l' = l + 1 /\ UNCHANGED <<s, base, beh>>
+
+TNext == l <= Len(Rec) /\ (Reset \/ Skip \/ Api \/ TickStep \/ Dead)
 TSpec == TInit /\ [][TNext]_tvars
 TraceAccepted == IF TLCGet("stats").diameter - 1 = Len(Rec) THEN TRUE
                  ELSE PrintT(<<"REJECTED", TLCGet("stats").diameter, Len(Rec)>>) /\ FALSE
